@@ -98,11 +98,17 @@ def partitionsPush (selfNdim : Nat) (anyNdim : Bool) (ops : List Operand) : List
 /-- composition with a `PartitionsFiltered` frame:
     `[frame._partitions[p] for p in self.partitions] if frame._partitions else self.partitions`
     (`frame._partitions` is `range(npartitions)` when unfiltered, so both branches index) -/
+def pick (Q : List Nat) : List Nat → Option (List Nat)
+  | [] => some []
+  | p :: t => match Q[p]?, pick Q t with
+      | some q, some r => some (q :: r)
+      | _, _ => none                -- IndexError
+
 def composeSel (inner : Option (List Nat)) (P : List Nat) : Option (List Nat) :=
   match inner with
   | none => some P
   | some [] => some P            -- `if self.frame._partitions:` is falsy for an empty list
-  | some Q => P.mapM (fun p => Q[p]?)
+  | some Q => pick Q P
 
 /-! ### FromPandas -/
 
